@@ -88,6 +88,42 @@ class Program:
             raise KeyError("%s: %d candidates %s" % (short, len(c), c[:5]))
         return c[0]
 
+    def ipdom(self, fname):
+        """immediate post-dominators of the blocks of fname: dict block -> block (or -1 for exit)"""
+        c = self.__dict__.setdefault("_ipdom", {})
+        if fname in c:
+            return c[fname]
+        blocks = self.funcs[fname]["blocks"]
+        n = len(blocks)
+        EXIT = n
+        succ = {b["index"]: (list(b["succs"]) or [EXIT]) for b in blocks}
+        succ[EXIT] = []
+        nodes = list(range(n + 1))
+        full = set(nodes)
+        pd = {v: set(full) for v in nodes}
+        pd[EXIT] = {EXIT}
+        changed = True
+        while changed:
+            changed = False
+            for v in range(n - 1, -1, -1):
+                ss = succ[v]
+                new = set.intersection(*[pd[x] for x in ss]) | {v}
+                if new != pd[v]:
+                    pd[v] = new
+                    changed = True
+        res = {}
+        for v in range(n):
+            cands = pd[v] - {v}
+            # immediate: the candidate that is post-dominated by all other candidates
+            ip = None
+            for x in cands:
+                if all((y in pd[x]) for y in cands):
+                    ip = x
+                    break
+            res[v] = -1 if ip is None or ip == EXIT else ip
+        c[fname] = res
+        return res
+
     def source_hash(self):
         h = hashlib.sha256()
         for p in self.doc["packages"]:
